@@ -535,9 +535,21 @@ def group_ops(prims):
     # a name whose computation raises: the real callback raises after the removal and before the insertion
     prims = [[(None if x == "!raise" else x) for x in p] for p in prims]
     i, n = 0, len(prims)
+    done = set()     # instances that were set STOPPED / FINISHED (heads dropped) earlier in this segment and not revived since
     while i < n:
         p = prims[i]
         k = p[0]
+        if k == "setFlowStatus":
+            (done.add if p[2] in ("stopped", "finished") else done.discard)(p[1])
+        elif k in ("addInst", "installHeads"):
+            done.discard(p[1])
+        if k in ("setPos", "setStatus") and not p[5] and p[1] in done:
+            # a flow that ended ITSELF in the middle of the slide of its own head (e.g. a `when FlowStarted()` without flow_id
+            # matched the flow's own FlowStarted event: the flow sits in its own scope and is aborted by its own `EndScope`):
+            # `slide` still advances the head object, which is no longer in `flow_state.heads`.  The callback removes nothing
+            # (the head was unregistered by the abort) and adds nothing (the flow is not listening): no index operation.
+            i += 1
+            continue
         if k == "addInst":
             _, f, h, nm0, nheads, pos = p
             if nheads != 1 or pos != 0:
